@@ -108,7 +108,7 @@ func (c *Ctx) ruleFinalisationOrder() {
 			// the function's final result is the Flush error
 			ret := false
 			for _, r := range returnsOf(h) {
-				for _, v := range phiInputs(r.Results[0]) {
+				for _, v := range phiInputs(resultOf(r, 0)) {
 					if v == ssa.Value(flush) {
 						ret = true
 					}
